@@ -6,7 +6,7 @@ CONSTANTS
   Global = FALSE
   D = 1
   DropWhenBusy = FALSE
-  LeakOnSibling = FALSE
+  LeakOnSibling = TRUE
   Export = FALSE
 INVARIANTS TypeOK BoundedRefresh
 PROPERTIES Live
